@@ -214,6 +214,11 @@ def main(tier: str, workers: int = 16) -> int:
             "candidates_not_confirmed", "success_with_nondefault_option")},
         "canonical_event_log_sha256": log_digest,
         "invocations_per_hour": round(inv / wall * 3600) if wall > 0 else 0,
+        "sessions_per_hour": round(sum(r.get("n_sessions", 0) for r in results) / wall * 3600) if wall > 0 else 0,
+        "derived_hypothesis_seeds": [p["hyp_seed"] for p in plans],
+        "formatter_environments": {k: sum(1 for p in plans if p["stub"] == k) for k in ("present", "absent", "real")},
+        "fault_free_workers": sum(1 for p in plans if not p["faults"]),
+        "fault_injecting_workers": sum(1 for p in plans if p["faults"]),
         "simulated_time": "not applicable: the CLI has no clock; progress is measured in invocations",
         "real_vs_stub": {"real": ["gotranx CLI and API (from /repo working tree)", "typer/click", "black (config discovery and formatter)",
                                   "myokit (CellML import)", "the file system of a scratch project directory"],
